@@ -9,7 +9,7 @@
    hypotheses are satisfiable ([aead_hyps_satisfiable]). *)
 From Coq Require Import List NArith Arith Bool Lia.
 From AHK Require Import Lib.Res Lib.ByteStr Model.Frame
-  Proofs.FrameBase Proofs.FrameFeed Proofs.FrameSend Proofs.FrameSound Proofs.FrameSess.
+  Proofs.FrameBase Proofs.FrameFeed Proofs.FrameSend Proofs.FrameSound Proofs.FrameSess Proofs.FrameHist.
 Import ListNotations.
 
 Lemma F1024 : 0 < CHUNK. Proof. unfold CHUNK; lia. Qed.
@@ -185,6 +185,52 @@ Theorem session_dead_quiet : forall opn ops tx,
     wrote (snd (ip_sess_run opn (mkSess Dead tx) ops)) = [].
 Proof. exact (fun opn => sess_dead_quiet CHUNK TAGLEN opn). Qed.
 
+(* The property's FIRST sentence for a whole session script: whatever was received,
+   paused or resumed in between and however many requests were in flight, as long as no
+   request was refused or raised, a conformant accessory (rejects frames > 1024; prefix
+   as AAD; nonce from its own counter) that starts at the session's counter decrypts
+   everything written, in order, to exactly the requests and ends at the controller's
+   counter *)
+Theorem session_requests_accepted : forall A key, aead_ok A 16 -> forall opn ops s,
+    forallb accepted_ev (snd (ip_sess_run opn s ops)) = true ->
+    let stream := concat (map (render A key) (concat (wrote (snd (ip_sess_run opn s ops))))) in
+    ip_acc_recv A key (S (length stream)) (s_tx s) stream
+    = Some (concat (sent ops), s_tx (fst (ip_sess_run opn s ops))).
+Proof. exact (fun A key H => sess_requests_accepted CHUNK F1024 TAGLEN A key H F1024w). Qed.
+
+(* The property's SECOND sentence for a whole session script (no cancellation): the
+   frames the accessory sealed, cut into reads in any way, with requests / pause / resume
+   anywhere between the reads, are delivered exactly, in order *)
+Theorem session_messages_decoded : forall A key, aead_ok A 16 -> forall ops ctr tx ps,
+    forallb no_cancel ops = true ->
+    Forall (fun p => (N.of_nat (length p) < 65536)%N) ps ->
+    (ctr + N.of_nat (length ps) <= ctr_limit)%N ->
+    concat (recvs ops) = seal_stream A key ctr ps ->
+    delivered (snd (ip_sess_run (open A key) (mkSess (Live [] ctr) tx) ops)) = ps /\
+    s_rx (fst (ip_sess_run (open A key) (mkSess (Live [] ctr) tx) ops))
+    = Live [] (ctr + N.of_nat (length ps))%N.
+Proof. exact (fun A key H => sess_messages_decoded CHUNK TAGLEN A key H). Qed.
+
+(* the 2^64 boundary, for every script and every state: no frame is ever written with a
+   counter >= 2^64 (the 64-bit nonce never wraps, so no nonce is reused that way) ... *)
+Theorem session_counters_below_limit : forall opn ops s fs f,
+    In fs (wrote (snd (ip_sess_run opn s ops))) -> In f fs -> (sf_ctr f < ctr_limit)%N.
+Proof. exact (fun opn => sess_counters_below CHUNK F1024 TAGLEN opn). Qed.
+
+(* ... a request that raises leaves the counter at (or above) 2^64 ... *)
+Theorem session_raise_sticks : forall opn s p,
+    snd (ip_sess_step opn s (OSend p)) = ERaise ->
+    (ctr_limit <= s_tx (fst (ip_sess_step opn s (OSend p))))%N.
+Proof. exact (fun opn => sess_raise_sticks CHUNK F1024 TAGLEN opn). Qed.
+
+(* ... and from there on no frame is written ever again (the session is not closed by
+   this: the controller simply can no longer send anything but empty requests) *)
+Theorem session_exhausted_forever : forall opn ops s,
+    (ctr_limit <= s_tx s)%N ->
+    concat (wrote (snd (ip_sess_run opn s ops))) = [] /\
+    (ctr_limit <= s_tx (fst (ip_sess_run opn s ops)))%N.
+Proof. exact (fun opn => sess_exhausted_forever CHUNK F1024 TAGLEN opn). Qed.
+
 (* nonce layout: 12 bytes, distinct for distinct counters below 2^64 *)
 Theorem nonce_layout : forall a b,
     length (nonce_of a) = 12 /\
@@ -237,6 +283,19 @@ Example c05_session_nonvacuous :
   map (map sf_ctr) (wrote (snd r)) = [[0%N]; [1%N]] /\ forallb accepted_ev (snd r) = true.
 Proof. vm_compute. repeat split; reflexivity. Qed.
 
+(* at counter 2^64-1: one more 1-byte request is sealed (counter 2^64-1), the next one
+   raises and leaves the counter at 2^64, a read in between is still decoded, the third
+   request raises as well; nothing beyond the first frame is ever written *)
+Example c05_limit_nonvacuous :
+  let k := [1%N] in
+  let f1 := seal_frame toy_aead k 0%N [7%N] in
+  let ops := [OSend [1%N]; OSend [2%N]; ORecv f1; OSend [3%N]] in
+  let r := ip_sess_run (open toy_aead k) (mkSess (Live [] 0%N) 18446744073709551615%N) ops in
+  map (map sf_ctr) (wrote (snd r)) = [[18446744073709551615%N]] /\
+  delivered (snd r) = [[7%N]] /\ s_tx (fst r) = ctr_limit /\
+  map accepted_ev (snd r) = [true; false; true; false].
+Proof. vm_compute. repeat split; reflexivity. Qed.
+
 Print Assumptions send_chunks_le_1024.
 Print Assumptions send_counters.
 Print Assumptions send_concat.
@@ -259,5 +318,10 @@ Print Assumptions send_feed_mirror.
 Print Assumptions session_inbound_independent.
 Print Assumptions session_outbound_sequential.
 Print Assumptions session_dead_quiet.
+Print Assumptions session_requests_accepted.
+Print Assumptions session_messages_decoded.
+Print Assumptions session_counters_below_limit.
+Print Assumptions session_raise_sticks.
+Print Assumptions session_exhausted_forever.
 Print Assumptions nonce_layout.
 Print Assumptions aead_hyps_satisfiable.
